@@ -320,27 +320,35 @@ end Hbs.C02
 namespace Hbs.C02
 open Hbs RM
 
-/-- the compiled `{{v}}` writes `escape (text of data.v)` in every state a plain template can be in -/
-theorem value_writes_escaped (reg : Registry) (root j : Json) (rc0 : RC)
+/-- the compiled value expression of the path `v` – however its text `raw` is spelled – writes `escape (text of data.v)`
+    in every state a plain template can be in -/
+theorem path_value_writes_escaped (raw : Str) (reg : Registry) (root j : Json) (rc0 : RC)
     (hb : rc0.blocks = [{}]) (hi : rc0.indentString = none) (hmc : rc0.modifiedCtx = none) (hde : rc0.disableEscape = false)
-    (hl : assocGet rc0.localHelpers ['v'] = none) (hr : assocGet reg.helpers ['v'] = none)
+    (hl : assocGet rc0.localHelpers raw = none) (hr : assocGet reg.helpers raw = none)
     (hsafe : Spec.indexSafe root [['v']] = true) (hj : Spec.descend root [['v']] = some j) :
-    WritesText reg root rc0 (.expr PlainText.valHT) (reg.escape j.render) := by
+    WritesText reg root rc0 (.expr (PlainText.valHTr raw)) (reg.escape j.render) := by
   intro fuel rc out hq hf
-  have hpath : Path.new ['v'] [.named ['v']] = .relative [.named ['v']] ['v'] := rfl
-  have hev : evaluate2 root (.relative [.named ['v']] ['v']) rc out = .ok (.context j [['v']]) rc out := by
+  have hev : evaluate2 root (.relative [.named ['v']] raw) rc out = .ok (.context j [['v']]) rc out := by
     have hblocks : rc.blocks = [{}] := by rw [hq.blocks, hb]
     have := C01.navigate_current_path_scope root {} [] ['v'] [] rc out (by simp [getInBlockParams, assocGet]) rfl (by simpa using hsafe)
     simp only [C01.names, List.map_cons, List.map_nil] at this
     simp only [evaluate2, RM.bind_def, RM.bnd_apply, RM.get_apply, hblocks, this, C01.blockValue, Spec.descend]
-    simp only [Option.bind] 
+    simp only [Option.bind]
     have hj' : (Spec.step root ['v']).bind (fun v' => Spec.descend v' []) = some j := by simpa [Spec.descend] using hj
     simp [Spec.descend] at hj' ⊢
     rw [hj']
-  have h := expr_path_escapes_once reg root fuel PlainText.valHT (.relative [.named ['v']] ['v']) rc out (.context j [['v']])
-    rfl rfl (by rw [hq]; exact hl) hr (by rw [hq]; exact hmc) (by rw [hq]; exact hde) hev rfl
+  have h : renderElem reg root (fuel + 6) (.expr (PlainText.valHTr raw)) rc out = _ :=
+    expr_path_escapes_once reg root (fuel + 2) (PlainText.valHTr raw) (.relative [.named ['v']] raw) rc out (.context j [['v']])
+      rfl rfl (by rw [hq]; exact hl) hr (by rw [hq]; exact hmc) (by rw [hq]; exact hde) hev rfl
   rw [h]
   exact indentAwareWrite_quiet rc0 hi _ rc out hq hf
+
+theorem value_writes_escaped (reg : Registry) (root j : Json) (rc0 : RC)
+    (hb : rc0.blocks = [{}]) (hi : rc0.indentString = none) (hmc : rc0.modifiedCtx = none) (hde : rc0.disableEscape = false)
+    (hl : assocGet rc0.localHelpers ['v'] = none) (hr : assocGet reg.helpers ['v'] = none)
+    (hsafe : Spec.indexSafe root [['v']] = true) (hj : Spec.descend root [['v']] = some j) :
+    WritesText reg root rc0 (.expr PlainText.valHT) (reg.escape j.render) :=
+  path_value_writes_escaped ['v'] reg root j rc0 hb hi hmc hde hl hr hsafe hj
 
 /-- `{{v}}` -/
 abbrev valueTag : Str := PlainText.valSrc
@@ -382,7 +390,7 @@ theorem value_between_texts_escaped_once (r : Registry) (fs : FS) (L R : Str) (d
     · split at hp
       · simp at hp
       · simp at hp; subst hp; exact writes_raw r data _ rfl R
-  have hlen : ets.length + 10 ≤ renderFuel := by
+  have hlen : ets.length + 12 ≤ renderFuel := by
     have h1 : (if L = [] then [] else [((Elem.raw L, L) : Elem × Str)]).length ≤ 1 := by split <;> simp
     have h2 : (if R = [] then [] else [((Elem.raw R, R) : Elem × Str)]).length ≤ 1 := by split <;> simp
     simp only [ets, List.length_append, List.length_singleton]
@@ -418,8 +426,9 @@ theorem html_value_writes_raw (reg : Registry) (root j : Json) (rc0 : RC)
     have hj' : (Spec.step root ['v']).bind (fun v' => Spec.descend v' []) = some j := by simpa [Spec.descend] using hj
     simp [Spec.descend] at hj' ⊢
     rw [hj']
-  have h := html_never_escapes reg root fuel PlainText.valHT (.relative [.named ['v']] ['v']) rc out (.context j [['v']])
-    rfl rfl (by rw [hq]; exact hl) hr (by rw [hq]; exact hmc) hev rfl
+  have h : renderElem reg root (fuel + 6) (.html PlainText.valHT) rc out = _ :=
+    html_never_escapes reg root (fuel + 2) PlainText.valHT (.relative [.named ['v']] ['v']) rc out (.context j [['v']])
+      rfl rfl (by rw [hq]; exact hl) hr (by rw [hq]; exact hmc) hev rfl
   rw [h]
   -- escaping off … the write … escaping on again
   have hq' : Quiet { rc0 with disableEscape := true } { rc with disableEscape := true } := by
@@ -436,24 +445,40 @@ theorem html_value_writes_raw (reg : Registry) (root j : Json) (rc0 : RC)
 
 /-- the three spellings of a value tag -/
 inductive Spelling where
-  | dbl      -- {{v}}
-  | triple   -- {{{v}}}
-  | amp      -- {{&v}}
+  | dbl        -- {{v}}
+  | triple     -- {{{v}}}
+  | amp        -- {{&v}}
+  | thisDot    -- {{this.v}}
+  | thisSlash  -- {{this/v}}
+  | dotSlash   -- {{./v}}
+  | spaced     -- {{ v }}
 deriving DecidableEq
 
 def Spelling.ctag : Spelling → PlainText.CTag
   | .dbl => PlainText.tagValue
   | .triple => PlainText.tagTriple
   | .amp => PlainText.tagAmp
+  | .thisDot => PlainText.tagThisDot
+  | .thisSlash => PlainText.tagThisSlash
+  | .dotSlash => PlainText.tagDotSlash
+  | .spaced => PlainText.tagSpaced
+
+/-- the path text of the spelling (what `expand_as_name` looks up among the helpers first) -/
+def Spelling.raw : Spelling → Str
+  | .thisDot => ['t', 'h', 'i', 's', '.', 'v']
+  | .thisSlash => ['t', 'h', 'i', 's', '/', 'v']
+  | .dotSlash => ['.', '/', 'v']
+  | _ => ['v']
 
 /-- what the tag writes for the value `j` under the escape function `esc` -/
 def Spelling.output (esc : Str → Str) (j : Json) : Spelling → Str
-  | .dbl => esc j.render
-  | _ => j.render
+  | .triple => j.render
+  | .amp => j.render
+  | _ => esc j.render
 
 def ctags (more : List (Spelling × Str)) : List (PlainText.CTag × Str) := more.map (fun q => (q.1.ctag, q.2))
 
-/-- `S0 T1 S1 T2 … Tk Sk` with every `Ti` one of `{{v}}`, `{{{v}}}`, `{{&v}}` -/
+/-- `S0 T1 S1 T2 … Tk Sk` with every `Ti` one of `{{v}}`, `{{{v}}}`, `{{&v}}`, `{{this.v}}`, `{{this/v}}`, `{{./v}}`, `{{ v }}` -/
 def textsAndTags (s0 : Str) (more : List (Spelling × Str)) : Str := PlainText.tailSrc s0 (PlainText.ptags (ctags more))
 /-- every text but the last may stand in front of a tag (no `{{` inside, no `{` or `\` at its end); the last has no `{{` -/
 def TextsOk (s0 : Str) (more : List (Spelling × Str)) : Prop := PlainText.TextsOk s0 (PlainText.ptags (ctags more))
@@ -500,52 +525,61 @@ theorem tailEts_length (esc : Str → Str) (j : Json) : ∀ (more : List (Spelli
     or precedes a `{{v}}` – and every character of template text comes out, in order.  From the source string through
     the regenerated grammar, compile2 and the renderer.  (The bound on the number of tags is the model's render fuel.) -/
 theorem texts_and_tags_render (r : Registry) (fs : FS) (s0 : Str) (more : List (Spelling × Str)) (data j : Json) (hdev : r.dev = false)
-    (hok : TextsOk s0 more) (hmany : 2 * more.length + 12 ≤ renderFuel)
-    (hnohelper : assocGet r.helpers ['v'] = none)
+    (hok : TextsOk s0 more) (hmany : 2 * more.length + 14 ≤ renderFuel)
+    (hnohelper : ∀ q ∈ more, assocGet r.helpers q.1.raw = none)
     (hsafe : Spec.indexSafe data [['v']] = true) (hj : Spec.descend data [['v']] = some j) :
     r.renderTemplate fs (textsAndTags s0 more) data
       = .ok (s0 ++ (more.map (fun q => q.1.output r.escape j ++ q.2)).flatten) := by
   unfold Registry.renderTemplate Registry.renderTemplateToWrite Registry.renderTemplateWithContextToWrite
     Registry.compileForRenderTemplate
-  have hTs : ∀ q ∈ PlainText.ptags (ctags more), PlainText.TagAt q.1.src 100 q.1.toks := by
+  have hTs : ∀ q ∈ PlainText.ptags (ctags more), PlainText.TagAt q.1.src 150 q.1.toks := by
     intro q hq
     simp only [PlainText.ptags, ctags, List.map_map, List.mem_map] at hq
     obtain ⟨⟨sp, s⟩, _, rfl⟩ := hq
     cases sp
-    · exact PlainText.tagValue_at
-    · exact PlainText.tagTriple_at
-    · exact PlainText.tagAmp_at
-  obtain ⟨m, hcomp⟩ := PlainText.compile_texts_tags 100 (by decide) { preventIndent := r.preventIndent } s0 (ctags more) hTs hok
+    · exact (PlainText.tagValue_at).weaken' (by decide)
+    · exact (PlainText.tagTriple_at).weaken' (by decide)
+    · exact (PlainText.tagAmp_at).weaken' (by decide)
+    · exact PlainText.tagThisDot_at
+    · exact PlainText.tagThisSlash_at
+    · exact PlainText.tagDotSlash_at
+    · exact PlainText.tagSpaced_at
+  obtain ⟨m, hcomp⟩ := PlainText.compile_texts_tags 150 (by decide) { preventIndent := r.preventIndent } s0 (ctags more) hTs hok
   unfold textsAndTags
   rw [hcomp]
   simp only [Registry.renderResolved, hdev, Bool.not_false, ↓reduceIte]
   rw [← tailEts_elems r.escape j more s0]
-  have hgen : ∀ (more : List (Spelling × Str)) (s : Str), ∀ p ∈ tailEts r.escape j s more,
+  have hgen : ∀ (more : List (Spelling × Str)) (s : Str), (∀ q ∈ more, assocGet r.helpers q.1.raw = none) → ∀ p ∈ tailEts r.escape j s more,
       WritesText r data { ({ rootTemplate := none } : RC) with currentTemplate := none } p.1 p.2 := by
     intro more
     induction more with
     | nil =>
-      intro s p hp
+      intro s _ p hp
       simp only [tailEts] at hp
       split at hp
       · simp at hp
       · simp at hp; subst hp; exact writes_raw r data _ rfl s
     | cons q more ih =>
-      intro s p hp
+      intro s hno p hp
       obtain ⟨sp, s'⟩ := q
+      have hsp : assocGet r.helpers sp.raw = none := hno (sp, s') (by simp)
       simp only [tailEts, List.mem_append, List.mem_singleton] at hp
       rcases hp with (hp | rfl) | hp
       · split at hp
         · simp at hp
         · simp at hp; subst hp; exact writes_raw r data _ rfl s
       · cases sp
-        · exact value_writes_escaped r data j _ rfl rfl rfl rfl rfl hnohelper hsafe hj
-        · exact html_value_writes_raw r data j _ rfl rfl rfl rfl rfl hnohelper hsafe hj
-        · exact html_value_writes_raw r data j _ rfl rfl rfl rfl rfl hnohelper hsafe hj
-      · exact ih s' p hp
-  have hlen : (tailEts r.escape j s0 more).length + 10 ≤ renderFuel := by
+        · exact value_writes_escaped r data j _ rfl rfl rfl rfl rfl hsp hsafe hj
+        · exact html_value_writes_raw r data j _ rfl rfl rfl rfl rfl hsp hsafe hj
+        · exact html_value_writes_raw r data j _ rfl rfl rfl rfl rfl hsp hsafe hj
+        · exact path_value_writes_escaped _ r data j _ rfl rfl rfl rfl rfl hsp hsafe hj
+        · exact path_value_writes_escaped _ r data j _ rfl rfl rfl rfl rfl hsp hsafe hj
+        · exact path_value_writes_escaped _ r data j _ rfl rfl rfl rfl rfl hsp hsafe hj
+        · exact path_value_writes_escaped _ r data j _ rfl rfl rfl rfl rfl hsp hsafe hj
+      · exact ih s' (fun q hq => hno q (by simp [hq])) p hp
+  have hlen : (tailEts r.escape j s0 more).length + 12 ≤ renderFuel := by
     have := tailEts_length r.escape j more s0; omega
-  have := render_writes_template r data none (tailEts r.escape j s0 more) m { rootTemplate := none } hlen (hgen more s0)
+  have := render_writes_template r data none (tailEts r.escape j s0 more) m { rootTemplate := none } hlen (hgen more s0 hnohelper)
   simp only [Tmpl.name] at this ⊢
   rw [this, tailEts_text]
 
